@@ -986,10 +986,10 @@ class SMPose(SMUserList):
                 return base.h2e(left.A @ base.e2h(right))
             elif isinstance(right, np.ndarray) and left.isSO and right.shape[0] == left.N and len(left) == right.shape[1]:
                 # SO(n) x matrix
-                return np.c_[[x.A @ y for x, y in zip(right, left.T)]].T
+                return np.array([x.A @ y for x, y in zip(left, right.T)]).T
             elif isinstance(right, np.ndarray) and left.isSE and right.shape[0] == left.N and len(left) == right.shape[1]:
                 # SE(n) x matrix
-                return np.c_[[base.h2e(x.A @ base.e2h(y)) for x, y in zip(right, left.T)]].T
+                return np.array([base.h2e(x.A @ base.e2h(y)).flatten() for x, y in zip(left, right.T)]).T
             else:
                 raise ValueError('bad operands')
         elif base.isscalar(right):
